@@ -352,9 +352,9 @@ macro_rules! skein_menu {
         fn skein_oneshot(state_bytes: usize, n: usize, m: &[u8]) -> Vec<u8> {
             match (state_bytes, n) {
                 $(
-                    (32, $n) => <skein_hash::Skein256<$u> as Digest>::digest(m).to_vec(),
-                    (64, $n) => <skein_hash::Skein512<$u> as Digest>::digest(m).to_vec(),
-                    (128, $n) => <skein_hash::Skein1024<$u> as Digest>::digest(m).to_vec(),
+                    (32, $n) => <skein_hash::Skein256<$u>>::digest(m).to_vec(),
+                    (64, $n) => <skein_hash::Skein512<$u>>::digest(m).to_vec(),
+                    (128, $n) => <skein_hash::Skein1024<$u>>::digest(m).to_vec(),
                 )*
                 _ => panic!("Skein{}<{}> is not instantiated", state_bytes * 8, n),
             }
